@@ -917,6 +917,28 @@ theorem interleaved_entry_frame (find : Bytes → Nat → Bytes → Option Nat) 
     show (runEv find (stepEv find s ev) rest).st.dir.bytes[q]? = _
     rw [ih (stepEv find s ev), step_entry_frame find s ev q hq]
 
+/-! #### the API entry point -/
+
+/-- **api_accepts_only_basic_types**: through api.CreateComment type 0 and every type above COMMENT_TYPE_BASIC
+(the internal forward / reply / edit / deleted types and every larger value) are never accepted and change
+nothing; an accepted request is a push, a boo or an arrow and carries that type's mark.  (Before c4bea08 type 0
+passed the handler's test: `typeBytes 0 = []`, a line without mark.) -/
+theorem api_accepts_only_basic_types (find : Bytes → Nat → Bytes → Option Nat) (cfg : Cfg) (st : St) (q : Req) :
+    (q.ctype = 0 ∨ COMMENT_TYPE_BASIC < q.ctype →
+      apiRecommend find cfg st q = (st, .params)) ∧
+    (∀ line idx st', apiRecommend find cfg st q = (st', .ok line idx) →
+      (q.ctype = COMMENT_TYPE_RECOMMEND ∨ q.ctype = COMMENT_TYPE_BOO ∨ q.ctype = COMMENT_TYPE_COMMENT) ∧
+      typeBytes q.ctype ≠ []) ∧
+    typeBytes 0 = [] ∧ COMMENT_TYPE_BASIC = 3 := by
+  refine ⟨fun h => by unfold apiRecommend; rw [if_pos h], ?_, by decide, by decide⟩
+  intro line idx st' h
+  unfold apiRecommend at h
+  by_cases hc : q.ctype = 0 ∨ q.ctype > COMMENT_TYPE_BASIC
+  · rw [if_pos hc] at h; injection h with _ h2; cases h2
+  · have hb : COMMENT_TYPE_BASIC = 3 := by decide
+    have : q.ctype = 1 ∨ q.ctype = 2 ∨ q.ctype = 3 := by omega
+    rcases this with h | h | h <;> rw [h] <;> decide
+
 /-- the sequential comment is the special case "phase A, write, index" with nothing in between. -/
 theorem sequential_is_interleaving (find : Bytes → Nat → Bytes → Option Nat) (cfg : Cfg) (st : St) (q : Req) :
     recommend find cfg st q =
